@@ -27,6 +27,12 @@ def main():
         budget = args[args.index("--budget") + 1]
     if "--only" in args:
         only = args[args.index("--only") + 1]
+    shard = None
+    if "--shard" in args:      # i/n: every n-th item, for parallel runs
+        i_, n_ = args[args.index("--shard") + 1].split("/")
+        shard = (int(i_), int(n_))
+    workers = args[args.index("--workers") + 1] if "--workers" in args \
+        else None
     items = []
     for p in sorted(glob.glob(os.path.join(HERE, "mutants", "C*"))):
         items.append((os.path.basename(p)[:3], p, os.path.basename(p)))
@@ -35,13 +41,16 @@ def main():
         items.append((meta["property"], p, "seeded/" +
                       os.path.basename(os.path.dirname(p))))
     results = []
-    for prop, path, name in items:
+    for idx_, (prop, path, name) in enumerate(items):
         if only and prop != only:
+            continue
+        if shard and idx_ % shard[1] != shard[0]:
             continue
         t0 = time.time()
         cp = subprocess.run([os.path.join(HERE, "tools", "mut.sh"), path, prop,
-                             "--budget", budget], capture_output=True,
-                            text=True, timeout=1800)
+                             "--budget", budget] +
+                            (["--workers", workers] if workers else []),
+                            capture_output=True, text=True, timeout=1800)
         out = cp.stdout + cp.stderr
         m = re.search(r"^  key:\s+(\S+)", out, re.M)
         runs = re.search(r": (\d+) runs", out)
@@ -58,7 +67,8 @@ def main():
                                            else "ERROR"),
             res["key"] or "", res["runs"], res["wall_s"]), flush=True)
     os.makedirs(os.path.join(HERE, "out"), exist_ok=True)
-    outp = os.path.join(HERE, "out", "sensitivity.json")
+    outp = os.path.join(HERE, "out", "sensitivity.json" if not shard else
+                        "sensitivity.%d-of-%d.json" % shard)
     if only and "--merge" in args and os.path.exists(outp):
         # re-run of one property: replace its rows in the last full table
         old = [r for r in json.load(open(outp)) if r["property"] != only]
